@@ -528,6 +528,8 @@ pub(crate) struct LiteralDataFixedGenerator<R: io::Read> {
     source: R,
     /// how many bytes of the header have we written already
     header_written: usize,
+    /// how many bytes of the source are still to be written, the header announces exactly these
+    source_remaining: usize,
     total_len: u32,
 }
 
@@ -545,6 +547,7 @@ impl<R: io::Read> LiteralDataFixedGenerator<R> {
             header: serialized_header,
             source,
             header_written: 0,
+            source_remaining: usize::try_from(source_len)?,
             total_len,
         })
     }
@@ -564,9 +567,28 @@ impl<R: io::Read> io::Read for LiteralDataFixedGenerator<R> {
                 .copy_from_slice(&self.header[self.header_written..self.header_written + to_write]);
             self.header_written += to_write;
             Ok(to_write)
+        } else if self.source_remaining == 0 {
+            // everything that was announced has been written, the source has to end here
+            let mut probe = [0u8; 1];
+            if self.source.read(&mut probe)? != 0 {
+                return Err(io::Error::new(
+                    io::ErrorKind::InvalidInput,
+                    "source is longer than its announced length",
+                ));
+            }
+            Ok(0)
         } else {
-            // write source
-            self.source.read(buf)
+            // write source, not more than what the header announces
+            let max = buf.len().min(self.source_remaining);
+            let read = self.source.read(&mut buf[..max])?;
+            if read == 0 && max > 0 {
+                return Err(io::Error::new(
+                    io::ErrorKind::InvalidInput,
+                    "source is shorter than its announced length",
+                ));
+            }
+            self.source_remaining = self.source_remaining.saturating_sub(read);
+            Ok(read)
         }
     }
 }
